@@ -90,6 +90,9 @@ def _symtab(draw, allow_cycle=True, raw_texts=False):
             v = draw(st.sampled_from(names[:i]))
         elif k < 9:
             v = draw(st.sampled_from(names[:i])) + ' + ' + str(draw(st.integers(0, 9)))
+            if draw(st.booleans()):
+                # the same sum with the number first: the replacement text does not begin with a word
+                v = ' + '.join(reversed(v.split(' + ')))
         else:
             v = str(draw(st.integers(0, 50))) + ' + ' + str(draw(st.integers(0, 50)))
         syms[n] = v
@@ -117,6 +120,12 @@ def _cases(draw, tier):
     for n in names:
         if n in NUMLIKE:
             srcs[n] = draw(st.sampled_from(['config', 'cli']))     # defined from the start: never read as a number
+    padded = False
+    for n in names:
+        if srcs[n] == 'config' and not cyc and draw(st.integers(0, 3)) == 0:
+            # a replacement text configured with blanks around it is inserted as configured (seen inside strings)
+            syms[n] = draw(st.sampled_from([' ', '  '])) + syms[n] + draw(st.sampled_from([' ', '   ', '']))
+            padded = True
     dup = None
     if draw(st.integers(0, 7)) == 0:
         dup = (draw(st.sampled_from(names)), draw(st.sampled_from(['config', 'cli', 'define'])))
@@ -136,7 +145,7 @@ def _cases(draw, tier):
         if draw(st.booleans()):
             lines.append(('use', draw(_use(names, looks, shadow_only=None))))
     lines.append(('use', draw(_use(names, looks, shadow_only=None))))
-    if draw(st.integers(0, 3)) == 0:
+    if padded or draw(st.integers(0, 3)) == 0:
         # whole words inside a quoted string are occurrences like any other (the statement makes no exception)
         lines.insert(draw(st.integers(0, len(lines))), (draw(st.sampled_from(['usestr', 'usebare'])), draw(st.lists(st.sampled_from(names + looks + ['hi', 'x']), min_size=1, max_size=4))))
     empty = None
